@@ -59,12 +59,17 @@ def c13_part(rep, tier, seed):
     episodes = opscheck.make_episodes(configs, lambda cfg: CLAUSES)
     by_id, tot = opscheck.validate(episodes, chunk=60)
     nf = 0
+    und = 0
     for e in episodes:
         v = by_id[e["id"]]
+        if v["failing"] and opscheck.outputs_with_unknown(e["obs"]):
+            und += len(v["failing"])
+            v["failing"] = []
         for cl in v["failing"]:
             nf += 1
             rep.fail(cl, {"grid_class": e["cfg"]["cls"], "limiters": ",".join(sorted(e["cfg"]["limiters"]))[:60]},
                      {"cfg": {k: e["cfg"][k] for k in ("cls", "faces", "u", "uup", "phi", "limiters")},
                       "tvd": e["obs"].get("tvdnamed")})
     return {"episodes": len(episodes), "states": tot["distinct"], "transitions": tot["states"],
-            "evaluations": sum(len(e["cfg"]["limiters"]) for e in episodes), "failing": nf}
+            "evaluations": sum(len(e["cfg"]["limiters"]) for e in episodes), "failing": nf,
+            "undecided_unliftable": und}
